@@ -541,6 +541,9 @@ class Interp:
             return True
         if isinstance(v, FStr):
             return True
+        h = self.ctx.truth_hook(self, v)
+        if h is not None:
+            return h
         raise Unsupported(f"truth of {type(v).__name__}")
 
     # ------------------------------------------------------------------ expressions
